@@ -9,12 +9,15 @@
 // corrected commit date = max(commit time, max parent corrected date + 1) are
 // computed from that by the harness (the property's own definition).
 // A) git writes (`commit-graph write --reachable`, generation version 1 or 2,
-//    --changed-paths, or a two-layer --split chain); go-git opens it with
-//    OpenChainOrFileIndex and every commit's data must equal the ground truth.
+//
+//	--changed-paths, or a two-layer --split chain); go-git opens it with
+//	OpenChainOrFileIndex and every commit's data must equal the ground truth.
+//
 // B) go-git writes: a MemoryIndex filled with the ground truth is encoded,
-//    placed at objects/info/commit-graph, `git commit-graph verify` must pass,
-//    git log with the graph enabled must list what it lists without it, and
-//    go-git must read its own file back.
+//
+//	placed at objects/info/commit-graph, `git commit-graph verify` must pass,
+//	git log with the graph enabled must list what it lists without it, and
+//	go-git must read its own file back.
 package main
 
 import (
@@ -26,6 +29,7 @@ import (
 	"sort"
 	"strconv"
 	"strings"
+	"sync"
 	"time"
 
 	"github.com/go-git/go-billy/v6/osfs"
@@ -42,6 +46,8 @@ func main() {
 		"DAGs = seeded random histories (3-40 commits, merge probability 0-0.5, octopus merges, skewed/tied times, optional far-future parents forcing generation-data overflow); shape = (size class, has octopus, overflow class, writer variant); non-trivial = has a merge, an octopus, an overflow or a split chain",
 		run)
 }
+
+var importMu sync.Mutex
 
 type cinfo struct {
 	ID, Tree string
@@ -241,7 +247,10 @@ func run(c *vf.Ctx) {
 			c.Broken("%v", err)
 			return
 		}
+		// gitx.Import names its marks file after the global call counter: not safe for concurrent use
+		importMu.Lock()
 		ids, err := g.Import(dir, dc.h)
+		importMu.Unlock()
 		if err != nil {
 			c.Broken("%v", err)
 			return
